@@ -132,7 +132,7 @@ fn run_format(cfg: &Cfg, index: u64, stats: &mut Stats) {
             }
         }
     }
-    if index == 11 {
+    if stats.samples.is_empty() {
         stats.sample(json!({"case": case.describe(), "formatted_excerpt": once.chars().take(200).collect::<String>()}));
     }
 }
